@@ -23,7 +23,7 @@ import elementpath.aliases as ta
 from elementpath.protocols import XsdAttributeProtocol
 from elementpath.exceptions import ElementPathError
 from elementpath.namespaces import XSD_NAMESPACE, XSD_NOTATION, XSD_ANY_ATOMIC_TYPE, \
-    XSD_UNTYPED, XSD_ANY_TYPE
+    XSD_UNTYPED, XSD_ANY_TYPE, XSD_ANY_SIMPLE_TYPE
 from elementpath.helpers import numeric_equal, numeric_not_equal, \
     node_position, get_double
 from elementpath.namespaces import XSD_ERROR, get_namespace, get_expanded_name
@@ -922,6 +922,7 @@ def select__attribute_kind_test_or_axis(self: XPathToken, context: ta.ContextTyp
                     if name != '*':
                         yield attribute
                 elif not type_name or attribute.type_name == type_name or \
+                        type_name in (XSD_ANY_TYPE, XSD_ANY_SIMPLE_TYPE) or \
                         is_instance(attribute.typed_value, type_name, self.parser):
                     yield attribute
 
